@@ -106,6 +106,10 @@ func main() {
 		sort.Slice(res.Findings, func(i, j int) bool { return res.Findings[i].Signature < res.Findings[j].Signature })
 		b, _ := json.MarshalIndent(res, "", " ")
 		fmt.Println(string(b))
+	case "race":
+		seed, _ := strconv.ParseUint(os.Args[2], 10, 64)
+		n, _ := strconv.Atoi(os.Args[3])
+		cmdRace(seed, n)
 	case "scn":
 		cmdScn(os.Args[2:])
 	case "probe":
